@@ -476,7 +476,18 @@ func checkCredentialsFromBody(c *Ctx, rule string) {
 				if !ok || call.Common().StaticCallee() != target || len(call.Common().Args) < 4 {
 					continue
 				}
-				if exempt[fn.Name()] {
+				// the endpoint(s) this call site serves: the exported Fosite methods that reach it
+				onlyExempt, any := true, false
+				for _, ep := range c.P.MethodsOf(pkgRoot, "Fosite") {
+					if ep.Object() == nil || !ep.Object().Exported() || !c.P.reaches(ep, fn, 3) {
+						continue
+					}
+					any = true
+					if !exempt[ep.Name()] {
+						onlyExempt = false
+					}
+				}
+				if any && onlyExempt {
 					continue
 				}
 				n++
@@ -615,7 +626,7 @@ func checkSessionCloneDeep(c *Ctx, rule string) {
 					continue
 				}
 				if call, isCall := v.(*ssa.Call); isCall {
-					if cal := call.Common().StaticCallee(); cal != nil && cal.Name() == "Copy" && cal.Pkg != nil && strings.HasSuffix(cal.Pkg.Pkg.Path(), "deepcopy") && len(call.Common().Args) == 1 && strip(call.Common().Args[0]) == ssa.Value(recv) {
+					if src := deepCopied(call, 3); src != nil && strip(src) == ssa.Value(recv) {
 						continue
 					}
 					why = "the clone is the result of " + call.Common().Value.String() + ", not deepcopy.Copy(receiver)"
@@ -748,4 +759,83 @@ func checkRequestGetters(c *Ctx, rule string) {
 		}
 		c.Check(ok && n > 0, rule, role, fn, "returns-own-storage:"+g.meth, "Request."+g.meth+" returns the request's "+g.field+" itself, so that writes through the getter reach the request", "the getter returns another value (a copy or a different field)", w)
 	}
+}
+
+// deepCopied: the value a call deep-copies — the argument of deepcopy.Copy, or,
+// through a helper of the module whose every result is the deep copy of one of
+// its parameters (cloneOf[T](v) = deepcopy.Copy(v).(T)), the corresponding
+// argument of the helper call.
+func deepCopied(call *ssa.Call, depth int) ssa.Value {
+	cal := call.Common().StaticCallee()
+	if cal == nil || depth == 0 {
+		return nil
+	}
+	if cal.Name() == "Copy" && cal.Pkg != nil && strings.HasSuffix(cal.Pkg.Pkg.Path(), "deepcopy") && len(call.Common().Args) == 1 {
+		return call.Common().Args[0]
+	}
+	if len(cal.Blocks) == 0 || !isSubjectPkg(fnPkgPath(cal)) {
+		return nil
+	}
+	idx := -1
+	for _, b := range cal.Blocks {
+		for _, ins := range b.Instrs {
+			ret, ok := ins.(*ssa.Return)
+			if !ok {
+				continue
+			}
+			if len(ret.Results) != 1 {
+				return nil
+			}
+			v := ret.Results[0]
+			for {
+				switch x := v.(type) {
+				case *ssa.MakeInterface:
+					v = x.X
+					continue
+				case *ssa.TypeAssert:
+					v = x.X
+					continue
+				case *ssa.ChangeInterface:
+					v = x.X
+					continue
+				case *ssa.ChangeType:
+					v = x.X
+					continue
+				}
+				break
+			}
+			inner, ok := v.(*ssa.Call)
+			if !ok {
+				return nil
+			}
+			src := deepCopied(inner, depth-1)
+			for {
+				switch x := src.(type) {
+				case *ssa.MakeInterface:
+					src = x.X
+					continue
+				case *ssa.ChangeInterface:
+					src = x.X
+					continue
+				}
+				break
+			}
+			p, ok := src.(*ssa.Parameter)
+			if !ok {
+				return nil
+			}
+			for i, q := range cal.Params {
+				if q == p {
+					if idx >= 0 && idx != i {
+						return nil
+					}
+					idx = i
+				}
+			}
+		}
+	}
+	if idx < 0 || idx >= len(call.Common().Args) {
+		return nil
+	}
+	return call.Common().Args[idx]
 }
